@@ -8,7 +8,7 @@ Driver for the C27 model (`SgModel.Iter`).  One request line per case:
         d, tol, s_i are IEEE-754 binary64 bit patterns (16 hex digits), converted to exact
         rationals here; the reply compares the implementation's scores with the exact iteration
         (|Δ| ≤ 1e-9 per node) and evaluates the specification (non-negative, Σ = 1 resp. ≤ 1).
-        `borderline`: the exact L1 change is within 1e-9 of the tolerance at some round, so the
+        `borderline`: the exact L1 change is within 1e-12 of the tolerance at some round, so the
         float early-exit decision is not determined by the model.
   cdlp     <g> <id0,id1,…> <maxIter>                       -> ok <l0,l1,…> <iterations>
   cdlpspec <g> <id0,…> <maxIter> <l0,l1,…> <iterations>    -> ok | viol <what>
@@ -34,6 +34,9 @@ def parseNats? (s : String) : Option (List Nat) :=
   if s == "-" then some [] else (s.splitOn ",").mapM (·.toNat?)
 
 def eps9 : Rat := 1 / (1000000000 : Rat)
+/-- window around the tolerance inside which the float early-exit decision is not determined by
+the exact L1 change (float summation error of the L1 norm is far below this for n ≤ a few thousand) -/
+def epsNear : Rat := 1 / (1000000000000 : Rat)
 
 /-- exact iteration, reporting whether some round's L1 change is within 1e-9 of the tolerance -/
 def prLoopB (vw : View) (cfg : PrConfig) : Nat → List Rat → Bool → List Rat × Bool
@@ -41,7 +44,7 @@ def prLoopB (vw : View) (cfg : PrConfig) : Nat → List Rat → Bool → List Ra
   | k + 1, s, b =>
     let s' := prStep vw cfg s
     let df := l1diff vw.n s' s
-    let near := decide (ratAbs (df - cfg.tol) ≤ eps9) && decide (0 < cfg.tol)
+    let near := decide (ratAbs (df - cfg.tol) ≤ epsNear) && decide (0 < cfg.tol)
     if df < cfg.tol then (s', b || near) else prLoopB vw cfg k s' (b || near)
 
 def prOne (n : Nat) (cfg : PrConfig) (exact impl : List Rat) : String :=
